@@ -20,6 +20,7 @@ import (
 	"strconv"
 	"strings"
 	"sync"
+	"time"
 
 	"github.com/crossplane/crossplane/verifh/kit"
 )
@@ -249,7 +250,8 @@ func child(c *kit.Ctx, role string) {
 			if !c.Want(fmt.Sprintf("stress/%d", i)) {
 				continue
 			}
-			ok = runStress(s, c, i, st)
+			i := i
+			ok = guarded(s, fmt.Sprintf("stress/%d", i), func() bool { return runStress(s, c, i, st) })
 		}
 		flush(s, &st.lin, &st.qs, st.ops)
 		s.Done = true
@@ -261,22 +263,26 @@ func child(c *kit.Ctx, role string) {
 		ok := true
 		for i := 0; i < p.windows && ok; i++ {
 			if c.Want(fmt.Sprintf("window/%d", i)) {
-				ok = runWindow(s, c, i, st)
+				i := i
+				ok = guarded(s, fmt.Sprintf("window/%d", i), func() bool { return runWindow(s, c, i, st) })
 			}
 		}
 		for i := 0; i < p.seq && ok; i++ {
 			if c.Want(fmt.Sprintf("seq/%d", i)) {
-				runSequential(s, c, i, st)
+				i := i
+				ok = guarded(s, fmt.Sprintf("seq/%d", i), func() bool { runSequential(s, c, i, st); return true })
 			}
 		}
 		for i := 0; i < p.reest && ok; i++ {
 			if c.Want(fmt.Sprintf("reestablish/%d", i)) {
-				runReestablish(s, c, i, st)
+				i := i
+				ok = guarded(s, fmt.Sprintf("reestablish/%d", i), func() bool { runReestablish(s, c, i, st); return true })
 			}
 		}
 		for i := 0; i < p.gc && ok; i++ {
 			if c.Want(fmt.Sprintf("gc/%d", i)) {
-				runGC(s, c, i, st)
+				i := i
+				ok = guarded(s, fmt.Sprintf("gc/%d", i), func() bool { runGC(s, c, i, st); return true })
 			}
 		}
 		flush(s, &st.lin, &st.qs, st.ops)
@@ -305,5 +311,19 @@ func flush(s *sink, lr *linResult, qs *quiesceStats, ops map[string]int64) {
 	sort.Strings(keys)
 	for _, k := range keys {
 		s.Count(k, ops[k])
+	}
+}
+
+// guarded runs one case (including its quiescence-time engine calls) under the deadlock
+// watchdog. It returns false if the process must stop.
+func guarded(s *sink, caseName string, f func() bool) bool {
+	res := make(chan bool, 1)
+	go func() { res <- f() }()
+	select {
+	case ok := <-res:
+		return ok
+	case <-time.After(2 * watchdogDuration()):
+		deadlockVerdict(s, caseName, "the case (operations, then the engine calls made at quiescence) did not finish")
+		return false
 	}
 }
